@@ -13,8 +13,9 @@ import (
 
 // sandbox is a fresh directory tree for one CLI case.
 type sandbox struct {
-	env  *core.Env
-	Root string
+	env      *core.Env
+	Root     string
+	noShadow bool // the tree holds something a copy cannot reproduce (a fed named pipe)
 }
 
 func newSandbox(env *core.Env, name string, tree map[string]string) *sandbox {
@@ -61,7 +62,7 @@ func (s *sandbox) run(real bool, cwdRel string, args []string, stdin string) dri
 	n, _ := s.env.Private["cli-calls"].(int)
 	s.env.Private["cli-calls"] = n + 1
 	shadow := ""
-	if n%shadowEvery == shadowEvery-1 {
+	if n%shadowEvery == shadowEvery-1 && !s.noShadow {
 		shadow = s.Root + ".real"
 		os.RemoveAll(shadow)
 		if err := exec.Command("cp", "-a", s.Root, shadow).Run(); err != nil {
